@@ -75,5 +75,46 @@ def run(F, R, ctx):
            "ModuleBuilder::compile_module can return Ok without inserting the module into the compiled-module table: the "
            "next requirer compiles and evaluates the module again", cm.loc(), sample={"inserts": len(ins)})
     c06.rollback_rule(F, R, "C14.c")
+    pruning_rule(F, R)
     R.note("C14: decided are the cache-consultation, registration and rollback clauses only; which names a module graph "
            "exposes (provide / only-in / prefix-in / mangling) is not decided.")
+
+
+def pruning_rule(F, R):
+    R.rule("C14.d", "unused-import pruning looks at every macro before it deletes an import: in "
+                    "SemanticAnalysis::remove_unused_globals_with_prefix each loop over macros (the global macro map and the "
+                    "macro map of every compiled module) collects the references of every macro it iterates over — on every "
+                    "path from the iterator's Some edge back to the loop head the macro's expressions (SteelMacro::exprs) are "
+                    "visited; no test of the macro (is_mangled, …) skips one. A provided macro whose template is the only user "
+                    "of an import would otherwise lose that import and expand to a free identifier")
+    fn = F.one(r"\{impl SemanticAnalysis(<'a>)?\}::remove_unused_globals_with_prefix$")
+    nexts = [(i, b) for i, b in fn.calls() if re.search(r"Iterator for .*Values<.*\}::next$|Iterator.*::next$", b["callee"])
+             and any(re.search(r"(Values|Iter|IntoIter)<[^{]*\bSteelMacro>$", t) for t in b["targs"])]
+    exprs = fn.call_blocks(r"\{impl SteelMacro\}::exprs$")
+    if not exprs:
+        raise CheckError("anchor lost: remove_unused_globals_with_prefix no longer reads SteelMacro::exprs")
+    R.floor("C14.d", "loops over macros in the pruning pass", len(nexts), 2)
+    for k, (i, b) in enumerate(sorted(nexts)):
+        sw = None
+        nxt = b.get("ret")
+        hops = 0
+        while nxt is not None and hops < 4:
+            nb = fn.blocks[nxt]
+            if nb["k"] == "switch" and nb["on"] == "enum:Option":
+                sw = nxt
+                break
+            if nb["k"] == "goto" and len(nb["s"]) == 1:
+                nxt = nb["s"][0]
+                hops += 1
+                continue
+            break
+        ok = False
+        if sw is not None:
+            am = lib.arm_map(fn, sw)
+            some = am.get("Some")
+            if some is not None:
+                ok, _ = fn.every_path_passes_from([some], [i], exprs)
+        R.inst("C14.d", "remove_unused_globals_with_prefix / macro loop #%d visits every macro" % k, ok,
+               "remove_unused_globals_with_prefix skips some macros when it collects the identifiers that macros refer to "
+               "(line %s): an import that is used only inside the template of a provided macro is pruned, and a later "
+               "evaluation that expands the macro fails with a free identifier" % b["line"], fn.loc(b["line"]), sample=True)
